@@ -341,6 +341,25 @@ def run(chk, repo, tier):
                       'reference counting of pooled objects is not symmetric around the yield', line=pf.node.lineno,
                       witness='nested or concurrent users of one path: the descriptor is closed too early or leaks')
 
+    # the release also runs when the body of the with-statement raises (exception thrown in at the yield)
+    rel_nodes = {n.id for n in cfg.nodes.values() if n.ast is not None and (
+        (isinstance(n.ast, ast.Delete) and any(isinstance(t, ast.Subscript) and self_attr(t.value) == '_refs'
+                                               for t in n.ast.targets))
+        or (post is not None and n.ast is post.ast))}      # every copy of the finally suite
+    for y in ys:
+        exc_succ = [m for m in cfg.g.successors(y) if 'exc' in cfg.g[y][m]['labels']]
+        # (exception edges out of lock operations / item accesses of the release block itself are not followed)
+        leaked = any(cfg.raise_exit in cfg.reachable(m, avoid=rel_nodes, edge_ok=lf.edge_ok) or m == cfg.raise_exit
+                     for m in exc_succ)
+        chk.instance(L6, f'__call__: an exception thrown in at the yield passes the release of the reference: {not leaked}')
+        if leaked and rel_nodes:
+            chk.violation(L6, rel, pf.qualname, 'yield not protected by try/finally',
+                          'when the body of the with-statement raises (a refused non-blocking request, a RecursiveDeadlockError, '
+                          'an error in the caller) the reference count is never decremented and the descriptor never closed',
+                          line=cfg.nodes[y].line,
+                          witness='a non-blocking request refused once: the fd stays open; after the lock file is replaced this '
+                                  'process locks the old inode and no longer excludes other processes')
+
     # ---- L8 per-instance containers
     for c in classes:
         locks = class_lock_attrs(c)
@@ -476,6 +495,7 @@ def run(chk, repo, tier):
     _lock_order(chk, repo, m, L4, rel)
     run_l10_l11(chk, repo)
     run_l12(chk, repo)
+    run_l13(chk, repo)
 
 
 def dict_in(lf, nid):
@@ -783,3 +803,42 @@ def run_l12(chk, repo):
                       f'{why} (state {dict((k, v) for k, v in env.items() if k != "is_windows")})', line=guard.lineno,
                       witness='a thread holds the path exclusively and nests a reentrant shared request: another process then '
                               'gets a shared lock while the exclusive section is still running')
+
+
+def run_l13(chk, repo):
+    """readers and writers of one file must lock the SAME lock file"""
+    from sa import reach
+    L13 = chk.rule('L13', '_read_lock and _write_lock of a class derive the lock file from the path in the same way', floor=2)
+    n = 0
+    for modname in ('pharmpy.workflows.contexts.local_directory', 'pharmpy.workflows.model_database.local_directory'):
+        m = repo.module(modname)
+        for c in dict.values(m.classes):
+            r, w = c.methods.get('_read_lock'), c.methods.get('_write_lock')
+            if r is None or w is None:
+                continue
+            texts = {}
+            for nm, f in (('read', r), ('write', w)):
+                cfg = CFG(f.node)
+                calls = [x for x in ast.walk(f.node) if isinstance(x, ast.Call) and (dotted(x.func) or '').endswith('path_lock')
+                         and x.args]
+                if not calls:
+                    raise AnalysisError(f'L13: path_lock(...) not found in {c.name}._{nm}_lock')
+                nid = reach.node_containing(cfg, calls[0])
+                e = reach.expand_expr(cfg, nid, calls[0].args[0]) if nid is not None else calls[0].args[0]
+                # plus the re-bindings of the names it is made of (path = path.with_suffix('.lock') reads what it defines
+                # and is therefore not expanded)
+                names_ = {x.id for x in ast.walk(e) if isinstance(x, ast.Name)}
+                rebinds = [unparse(a) for a in walk_no_nested(f.node) if isinstance(a, ast.Assign)
+                           and any(isinstance(t, ast.Name) and t.id in names_ for t in a.targets)]
+                texts[nm] = '; '.join(rebinds + [unparse(e)])
+            n += 1
+            ok = texts['read'] == texts['write']
+            chk.instance(L13, f'{c.name}: read lock on {texts["read"][:60]}, write lock on {texts["write"][:60]}: same file {ok}')
+            if not ok:
+                chk.violation(L13, m.rel, f'{c.name}._read_lock / _write_lock', f'{texts["read"]} vs {texts["write"]}',
+                              'readers and writers lock different files: a writer is not excluded while a reader is inside',
+                              line=w.node.lineno,
+                              witness='retrieve_log() reading log.csv while log_info() appends: the reader locks log.lock, the '
+                                      'writer log.csv.lock')
+    if n < 2:
+        raise AnalysisError(f'L13: only {n} _read_lock/_write_lock pairs found')
